@@ -37,7 +37,7 @@ def makers(ctx):
         sp = zoo.spec_random(rng, n)
         bb = zoo.rand_pose(rng, 1.5)
         out.append(("%s@random-base" % sp["name"], lambda sp=sp, bb=bb: (zoo.build(sp, bb), sp, bb)))
-    for rel in (zoo.URDFS[1:2] if ctx.quick else zoo.URDFS):
+    for rel in ([zoo.URDFS[(1 + ctx.seed) % len(zoo.URDFS)]] if ctx.quick else zoo.URDFS):     # quick: one bundled model, chosen by the seed
         def mk(rel=rel):
             arm, sp = zoo.load_urdf(rel)
             return arm, sp, np.eye(4)
